@@ -251,6 +251,14 @@ func runCheck(id, tier string) int {
 	for _, r := range rnames {
 		fmt.Printf("  rule %-8s %3d obligations, %3d ok\n", r, ruleCount[r][0], ruleCount[r][1])
 	}
+	if lr := os.Getenv("VERIF_LIST"); lr != "" {
+		// debugging aid: list every obligation of the named rule (or "all")
+		for _, o := range obls {
+			if lr == "all" || o.Rule == lr {
+				fmt.Printf("    [%s] %s at %s: %s\n", o.Verdict, o.Key, o.Pos, o.Reason)
+			}
+		}
+	}
 
 	exit := 0
 	replayDir := filepath.Join(verifDir(), "replays")
